@@ -241,6 +241,7 @@ struct exchange {
 		size_t off; /* offset in the connection's delivered stream */
 		unsigned int len; /* bytes of the offending PDU available in the stream */
 		int code, alt;
+		bool opt; /* a report naming it is permitted, not demanded (the PDU is incomplete as sent) */
 	} cand[16];
 	bool answer_reset, answer_error, truncated;
 	bool content_unknown; /* the response carries records outside the model universe (fuzzing): content verdicts are skipped */
